@@ -79,6 +79,99 @@ class Mod:
         return self.src.splitlines()[lineno - 1]
 
 
+def _const_like(e: ast.expr) -> bool:
+    """A literal, or a name spelled in capitals (the repository's way of naming constants)."""
+    if isinstance(e, ast.Constant):
+        return True
+    if isinstance(e, ast.UnaryOp) and isinstance(e.operand, ast.Constant):
+        return True
+    if isinstance(e, ast.Name):
+        return e.id.isupper() and len(e.id) > 1
+    if isinstance(e, ast.Attribute):
+        return e.attr.isupper() and len(e.attr) > 1 and not (isinstance(e.value, ast.Name) and e.value.id == "self")
+    return False
+
+
+class _Canonical(ast.NodeTransformer):
+    """Semantics-preserving normal form applied to every module before any rule looks at it, so that the rules do not
+    depend on spellings that do not matter:
+      * logging statements are dropped (no property speaks about log output),
+      * arithmetic on literals only is folded (1 << 4 -> 16),
+      * `x = x op y` becomes `x op= y`,
+      * in comparisons and commutative operations a constant stands on the right (`C == x` -> `x == C`, `C | x` -> `x | C`).
+    """
+
+    _SWAP = {ast.Lt: ast.Gt, ast.Gt: ast.Lt, ast.LtE: ast.GtE, ast.GtE: ast.LtE, ast.Eq: ast.Eq, ast.NotEq: ast.NotEq}
+    _BIN = {ast.Add: lambda a, b: a + b, ast.Sub: lambda a, b: a - b, ast.Mult: lambda a, b: a * b, ast.LShift: lambda a, b: a << b,
+            ast.RShift: lambda a, b: a >> b, ast.BitOr: lambda a, b: a | b, ast.BitAnd: lambda a, b: a & b, ast.BitXor: lambda a, b: a ^ b,
+            ast.FloorDiv: lambda a, b: a // b}
+
+    def _strip(self, body):
+        out = []
+        for st in body:
+            if isinstance(st, ast.Expr) and isinstance(st.value, ast.Call):
+                f = st.value.func
+                if isinstance(f, ast.Attribute) and isinstance(f.value, ast.Name) and f.value.id in ("logger", "logging") \
+                        and f.attr in ("debug", "info", "warning", "warn", "error", "exception", "critical", "log"):
+                    continue
+            out.append(st)
+        if not out:
+            p = ast.Pass()
+            ast.copy_location(p, body[0]) if body else None
+            out = [p]
+        return out
+
+    def generic_visit(self, node):
+        node = super().generic_visit(node)
+        for fld in ("body", "orelse", "finalbody"):
+            b = getattr(node, fld, None)
+            if isinstance(b, list) and b and isinstance(b[0], ast.stmt):
+                stripped = self._strip(b)
+                if fld != "body" and len(stripped) == 1 and isinstance(stripped[0], ast.Pass) and not any(isinstance(x, ast.Pass) for x in b):
+                    stripped = []        # an else/finally that only logged disappears
+                setattr(node, fld, stripped)
+        return node
+
+    def visit_BinOp(self, node):
+        self.generic_visit(node)
+        l, r = node.left, node.right
+        if isinstance(l, ast.Constant) and isinstance(r, ast.Constant) and type(l.value) is int and type(r.value) is int and type(node.op) in self._BIN:
+            try:
+                if isinstance(node.op, (ast.LShift,)) and r.value > 64:
+                    return node
+                return ast.copy_location(ast.Constant(value=self._BIN[type(node.op)](l.value, r.value)), node)
+            except Exception:  # noqa
+                return node
+        if isinstance(node.op, (ast.BitOr, ast.BitAnd, ast.Add, ast.Mult, ast.BitXor)) and _const_like(l) and not _const_like(r) \
+                and not any(isinstance(x, ast.Constant) and isinstance(x.value, (str, bytes)) for x in (l, r)):
+            node.left, node.right = r, l
+        return node
+
+    def visit_Compare(self, node):
+        self.generic_visit(node)
+        if len(node.ops) == 1 and type(node.ops[0]) in self._SWAP and _const_like(node.left) and not _const_like(node.comparators[0]):
+            node.left, node.comparators, node.ops = node.comparators[0], [node.left], [self._SWAP[type(node.ops[0])]()]
+        return node
+
+    def visit_Assign(self, node):
+        self.generic_visit(node)
+        if len(node.targets) == 1 and isinstance(node.targets[0], (ast.Name, ast.Attribute)) and isinstance(node.value, ast.BinOp):
+            t = ast.unparse(node.targets[0])
+            v = node.value
+            if ast.unparse(v.left) == t and isinstance(v.op, (ast.BitOr, ast.BitAnd, ast.BitXor, ast.Add, ast.Sub, ast.Mult, ast.LShift, ast.RShift)):
+                return ast.copy_location(ast.AugAssign(target=node.targets[0], op=v.op, value=v.right), node)
+            if ast.unparse(v.right) == t and isinstance(v.op, (ast.BitOr, ast.BitAnd, ast.BitXor, ast.Add, ast.Mult)) \
+                    and not any(isinstance(x, ast.Constant) and isinstance(x.value, (str, bytes)) for x in ast.walk(v)):
+                return ast.copy_location(ast.AugAssign(target=node.targets[0], op=v.op, value=v.left), node)
+        return node
+
+
+def canonicalise(tree: ast.Module) -> ast.Module:
+    tree = _Canonical().visit(tree)
+    ast.fix_missing_locations(tree)
+    return tree
+
+
 def _decorator_kind(fn: ast.FunctionDef) -> str:
     for d in fn.decorator_list:
         if isinstance(d, ast.Name) and d.id == "property":
@@ -114,7 +207,7 @@ class Repo:
                     with open(path, encoding="utf-8") as fh:
                         src = fh.read()
                 try:
-                    tree = ast.parse(src, filename=rel)
+                    tree = canonicalise(ast.parse(src, filename=rel))
                 except SyntaxError as e:
                     raise AnalysisError("E1", f"{rel} does not parse: {e}")
                 name = rel[:-3].replace(os.sep, ".")
